@@ -16,3 +16,6 @@ import AITB.Props.C03CheckSound
 import AITB.Props.C03Gap
 import AITB.Props.C03Trace
 import AITB.Props.C03AsFound
+import AITB.Props.C03Sarsop
+import AITB.Props.C03Prom
+import AITB.Props.C03GapMin
